@@ -6,6 +6,10 @@ ROOT = os.path.dirname(os.path.dirname(os.path.abspath(__file__)))
 
 # id -> (technique, level text, level note, design ref)
 CLAIMED = {
+ "C13": ("SSA guard dominance (SkipDir only for directories), def/use agreement between rule parsing and rule matching (every settable flag is read or rejected), decision-table extraction of first-match, provenance of the rule list handed to the sender",
+         "Partial, structural: excluded files never cut the walk; every flag the parser can set is honoured by the matcher or rejected with an error; no explicit panic under the matcher; first matching rule decides by its include flag; both sender entry points receive the user's rules; the receiving client sends its rules before the list terminator. String semantics of matching are not decided.",
+         "Trusted: fs.WalkDir SkipDir semantics. Five genuine defects found by these rules were repaired by fix: commits (known_findings.json).",
+         "DESIGN.md §3 C13"),
  "C02": ("SSA guard dominance with value identity (same block index i across weak, length and strong comparisons) + who-may-call for checksum definitions + field-store provenance of the seed",
          "Partial, structural: a block reference is emitted only after weak, length and strong (seeded MD4, sliced by the negotiated length) comparisons for that same block; one shared checksum definition used by both ends with the session seed; the whole-file trailer is always sent. Exactness of offsets/windows/arithmetic is NOT decided.",
          "Trusted: MD4. Not covered: window arithmetic in mapStruct/matched/receiveData.",
